@@ -814,6 +814,31 @@ def wrap_arm_bodies(toks, log):
     return toks
 
 
+def drop_body_uses(toks, log):
+    """R6: `use path;` statements inside a function body are dropped (the unit's stand-ins are all in scope; an import has no run-time meaning)."""
+    toks = list(toks)
+    k = 0
+    depth = 0
+    while k < len(toks):
+        t = toks[k]
+        if t.kind == 'punct' and t.text == '{':
+            depth += 1
+        elif t.kind == 'punct' and t.text == '}':
+            depth -= 1
+        elif depth >= 1 and t.kind == 'ident' and t.text == 'use':
+            p = _prev_sig(toks, k)
+            if p is not None and toks[p].kind == 'punct' and toks[p].text in '{;}':
+                e = k
+                while e < len(toks) and not (toks[e].kind == 'punct' and toks[e].text == ';'):
+                    e += 1
+                if e < len(toks):
+                    log.append(('R6', 'dropped `%s`' % re.sub(r'\s+', ' ', text(toks[k:e + 1]))[:80], t.line))
+                    toks = toks[:k] + toks[e + 1:]
+                    continue
+        k += 1
+    return toks
+
+
 def desugar_get_or_insert_with(toks, log):
     """R19c: a statement `PLACE.get_or_insert_with(|| EXPR);` (result unused; this vstd has no specification for it) is written as the definition std gives it:
     `if PLACE.is_none() { PLACE = Some(EXPR); }`. Any other use (the returned reference is used, a closure with parameters) is left alone and stays outside the subset."""
